@@ -144,7 +144,10 @@ impl<'a> Packet<'a> {
         offset: &mut usize,
         items_count: u16,
     ) -> crate::Result<Vec<T>> {
-        let mut section_items = Vec::with_capacity(items_count as usize);
+        // the count comes from untrusted input: never reserve more entries than the
+        // remaining bytes could hold (the smallest entry, a root-name question, takes 5 bytes)
+        let max_items = data.len().saturating_sub(*offset) / 5;
+        let mut section_items = Vec::with_capacity(max_items.min(items_count as usize));
 
         for _ in 0..items_count {
             section_items.push(T::parse(data, offset)?);
